@@ -3,7 +3,7 @@
 import copy
 import itertools
 
-from ..common import load_impl
+from ..common import canon, load_impl
 from ..engine.shard import Acc, Family, split
 from ..engine.tape import explore
 from ..gen import ast, chains, harness
@@ -62,9 +62,43 @@ def check_model(code, case, acc, model=None, presets=None, ref_model=None):
     acc.evals += 2
     if jm.diff(a, b):
         acc.violation(case, a, b, 'two runs of the same model with identical fresh globals differ')
+    # ... and a third one that reuses the options object of a previous run, with a fresh (identical) globals object in it
+    c = run_reused_options(model, presets)
+    acc.evals += 1
+    if c is not None and jm.diff(a, c, with_count=False):
+        acc.violation(case, a, c, 'a run with identical fresh globals in a REUSED options object differs from the first run')
     for o in itertools.islice(seen, 3):
         acc.outcome(o)
     return len(seen)
+
+
+def run_reused_options(model, presets):
+    """Two runs with the same options object; before the second one the host puts a fresh globals object into it."""
+    bs = load_impl()
+    from ..common import ImplHang, cpu_watchdog  # pylint: disable=import-outside-toplevel
+    from ..engine.tape import Tape  # pylint: disable=import-outside-toplevel
+    options = {'maxStatements': HORIZON}
+    out = None
+    for _ in range(2):
+        tape = Tape([])
+        logs = []
+        glob = {'x': 0}
+        if presets:
+            glob.update(copy.deepcopy(presets))
+        glob['cc'] = lambda args, options, tape=tape: tape.ask('cc', 2) == 1
+        options['globals'] = glob
+        options['logFn'] = logs.append
+        try:
+            with cpu_watchdog():
+                res = ('ok', canon(bs.execute_script(model, options)))
+        except bs.BareScriptRuntimeError as exc:
+            res = ('raise', 'BareScriptRuntimeError', str(exc))
+        except ImplHang:
+            return None
+        except Exception as exc:  # pylint: disable=broad-exception-caught
+            res = ('raise', type(exc).__name__, str(exc))
+        out = {'result': res, 'logs': logs, 'x': canon(glob.get('x')), 'count': options.get('statementCount'), 'points': tape.points}
+    return out
 
 
 def check_plain(case, acc):
@@ -384,6 +418,52 @@ def fam_rest(arg):
     return acc.result()
 
 
+# ---------------------------------------------------------------- the hard-wired if() inside jump-level models
+
+IF_ARGS = ([], ['c'], ['c', 'a'], ['c', 'a', 'b'], ['c', 'a', 'b', 'a'])
+IF_USES = ('statement', 'assignment', 'jump-condition', 'return', 'nested-in-call')
+
+
+def if_cases():
+    return [{'args': a, 'use': u, 'absent_key': k} for a in range(len(IF_ARGS)) for u in IF_USES for k in ((False, True) if a == 0 else (False,))]
+
+
+def build_if_model(case):
+    log = lambda t: {'function': {'name': 'systemLog', 'args': [{'string': t}]}}  # noqa: E731
+    arm = {'c': jm.CALL_CC, 'a': log('arm-a'), 'b': log('arm-b')}
+    call = {'function': {'name': 'if', 'args': [copy.deepcopy(arm[k]) for k in IF_ARGS[case['args']]]}}
+    if case['absent_key']:
+        del call['function']['args']
+    use = case['use']
+    if use == 'statement':
+        body = [{'expr': {'expr': call}}]
+    elif use == 'assignment':
+        body = [{'expr': {'name': 'x', 'expr': call}}]
+    elif use == 'jump-condition':
+        body = [{'jump': {'label': 'A', 'expr': call}}, {'expr': {'expr': log('not-jumped')}}, {'label': 'A'}]
+    elif use == 'return':
+        body = [{'function': {'name': 'ff', 'statements': [{'return': {'expr': call}}]}}, {'expr': {'name': 'x', 'expr': {'function': {'name': 'ff', 'args': []}}}}]
+    else:
+        body = [{'expr': {'name': 'x', 'expr': {'function': {'name': 'arrayNew', 'args': [call, copy.deepcopy(call)]}}}}]
+    return {'statements': body + [{'expr': {'expr': log('end')}}, {'return': {'expr': {'variable': 'x'}}}]}
+
+
+def check_if_model(case, acc):
+    n = check_model(None, case, acc, model=build_if_model(case))
+    acc.nontrivial += 1
+    return n
+
+
+def fam_if(arg):
+    acc = Acc('builtin_if')
+    for case in arg:
+        acc.cases += 1
+        check_if_model(case, acc)
+    if arg:
+        acc.sample({'case': arg[-1], 'model': build_if_model(arg[-1])})
+    return acc.result()
+
+
 def families(tier):
     load_impl()
     maxlen = 5 if tier == 'quick' else 6
@@ -403,7 +483,9 @@ def families(tier):
     pairs = [(a, b) for a in range(nb) for b in range(nb) if a != b]
     npool = len(cond_pool())
     rc = rest_cases()
+    ic = if_cases()
     return [
+        Family('builtin_if', fam_if, [ic], 'the hard-wired if() with 0..4 argument expressions (and without an args member) as a statement, in an assignment, as a jump condition, in a return and nested in a call: only the selected arm runs, the model is unchanged, a re-run repeats', expected=len(ic)),
         Family('restargs', fam_rest, split(rc, 8), 'a function model with 1..3 parameters and lastArgArray true / false / absent, called twice in one expression with 0..4 arguments each (all pairs): positional binding, missing -> null, surplus ignored, the array parameter collects the rest; the model is unchanged and a re-run repeats',
                expected=len(REST_PARAMS) * len(REST_FLAGS) * len(REST_NARGS) ** 2),
         Family('nested_function', fam_nested, [list(range(len(nested_models())))], 'hand-built models with a function statement inside a function body: it binds a GLOBAL function when executed', expected=len(nested_models())),
@@ -419,7 +501,7 @@ def families(tier):
     ]
 
 
-_CHECKS = {'restargs': check_rest, 'nested_function': check_nested, 'plain': check_plain, 'function': check_fn, 'parsed': check_parsed, 'function2': check_f2, 'conditions': check_cond}
+_CHECKS = {'builtin_if': check_if_model, 'restargs': check_rest, 'nested_function': check_nested, 'plain': check_plain, 'function': check_fn, 'parsed': check_parsed, 'function2': check_f2, 'conditions': check_cond}
 
 
 def replay(family, case):
